@@ -118,13 +118,13 @@ def _verify_one(task):
     w = _W['world']
     c = _W['contracts'][name]
     out = {'contract': name, 'target': c.target, 'file': c.file, 'props': c.props, 'note': c.note,
-           'assumes': c.assumes, 'bounded_only': bool(c.decl.kw.get('bounded_only'))}
+           'assumes': c.assumes, 'bounded_only': bool(c.decl.get('bounded_only'))}
     t0 = time.time()
     try:
-        if c.decl.kw.get('bounded_only'):
+        if c.decl.get('bounded_only'):
             res = verify.Result(c)
             res.status = 'out_of_reach'
-            res.reason = c.decl.kw.get('reason') or 'declared bounded_only: outside the subset pyvc executes'
+            res.reason = c.decl.get('reason') or 'declared bounded_only: outside the subset pyvc executes'
             try:
                 fn = c.funcref()
                 res.source_sha = fn.module.sha_of(fn.node)
@@ -175,7 +175,7 @@ def crosscheck(w, c, nc, rng, n):
     from . import verify, native, api
     from .interp import Ctx, Interp, OutOfReach, PyRaise, Infeasible, PathEnd, _Star
     from .vals import Err, Sym
-    if c.decl.kw.get('bounded_only'):
+    if c.decl.get('bounded_only'):
         return {'cases': 0, 'compared': 0, 'mismatches': []}
     samples = nc.sample_inputs(rng, 400)
     rng.shuffle(samples)
